@@ -139,140 +139,190 @@ def run(repo, rep, tier):
         raise AnalysisError('_open_response/_pull_response/CloseEnumeration '
                             'vanished')
 
-    def eos_if(func):
-        """The If whose two branches set eos 'TRUE' / 'FALSE'."""
-        for n in walk_no_nested(func.node):
-            if isinstance(n, ast.If) and n.orelse:
-                a, b = branch_assigns(n.body), branch_assigns(n.orelse)
-                if 'eos' in a and 'eos' in b:
-                    return n, a, b
-        raise AnalysisError('%s: eos branches not found' % func.qualname)
+    from ..paths import return_paths
+
+    def ctx_writes(effects):
+        ins, dels = [], []
+        for st in effects:
+            if isinstance(st, ast.Assign):
+                for t in st.targets:
+                    if isinstance(t, ast.Subscript) and _is_ctx_table(t.value):
+                        ins.append(st)
+            elif isinstance(st, ast.Delete):
+                for t in st.targets:
+                    if isinstance(t, ast.Subscript) and _is_ctx_table(t.value):
+                        dels.append(st)
+        return ins, dels
+
+    def bounds(slc):
+        lo = norm(slc.lower) if slc.lower is not None else '0'
+        hi = norm(slc.upper) if slc.upper is not None else None
+        return lo, hi, slc.step is None
 
     for func, kind in ((opn, 'insert'), (pul, 'delete')):
-        node, a, b = eos_if(func)
-        ea, eb = const_str(a['eos']), const_str(b['eos'])
-        if {ea, eb} != {'TRUE', 'FALSE'}:
+        paths = return_paths(func)
+        if paths is None:
+            raise AnalysisError('%s: too many paths' % func.qualname)
+        rows = []
+        for p_ in paths:
+            v = p_.resolve(p_.value) if p_.value is not None else None
+            if not (isinstance(v, ast.Tuple) and len(v.elts) == 3):
+                continue
+            rows.append((p_, v, const_str(v.elts[1])))
+        if not rows:
+            raise AnalysisError('%s: eos branches not found' % func.qualname)
+        node = func.node
+        eos_vals = {e for _, _, e in rows}
+        if eos_vals != {'TRUE', 'FALSE'}:
             rep.finding(r1, func.qualname, 'eos', 'eos-values', MAIN,
-                        node.lineno, 'eos is not TRUE in one branch and '
-                        'FALSE in the other')
+                        node.lineno, 'eos is not TRUE on some return paths '
+                        'and FALSE on the others (%s)' % sorted(
+                            str(x) for x in eos_vals))
             continue
-        true_body, false_body = (node.body, node.orelse) if ea == 'TRUE' \
-            else (node.orelse, node.body)
-        ta, fa = (a, b) if ea == 'TRUE' else (b, a)
-
-        def writes_in(stmts):
-            out = []
-            for s in stmts:
-                for n in ast.walk(s):
-                    if isinstance(n, (ast.Assign, ast.Delete)):
-                        tg = n.targets
-                        for t in tg:
-                            if isinstance(t, ast.Subscript) and \
-                                    _is_ctx_table(t.value):
-                                out.append(n)
-            return out
+        tpaths = [(p_, v) for p_, v, e in rows if e == 'TRUE']
+        fpaths = [(p_, v) for p_, v, e in rows if e == 'FALSE']
+        # ---- R1: eos <=> context table write ------------------------------
         if kind == 'insert':
-            ok = bool(writes_in(false_body)) and not writes_in(true_body)
-            why = 'the context is registered exactly in the eos=FALSE branch'
+            ok = all(ctx_writes(p_.effects)[0] for p_, _ in fpaths) and \
+                not any(ctx_writes(p_.effects)[0] for p_, _ in tpaths)
+            why = 'the context is registered exactly on the eos=FALSE paths'
         else:
-            ok = bool(writes_in(true_body)) and not writes_in(false_body)
-            why = 'the context is deleted exactly in the eos=TRUE branch'
+            ok = all(ctx_writes(p_.effects)[1] for p_, _ in tpaths) and \
+                not any(ctx_writes(p_.effects)[1] for p_, _ in fpaths)
+            why = 'the context is deleted exactly on the eos=TRUE paths'
         r1.ob(ok, func.name + ':eos-iff-' + kind, {'function': func.name,
-                                                  'fact': why})
+                                                  'fact': why,
+                                                  'paths': len(rows)})
         if not ok:
             rep.finding(r1, func.qualname, 'eos/' + kind, 'eos-mismatch',
                         MAIN, node.lineno, 'not: ' + why + ' (a context '
                         'stays open after eos, or is dropped while objects '
                         'remain)')
-        # context id '' exactly in the TRUE branch
-        ok = const_str(ta.get('context_id')) == '' and \
-            'context_id' in fa and const_str(fa['context_id']) != ''
+        ok = all(const_str(v.elts[2]) == '' for _, v in tpaths) and \
+            all(const_str(v.elts[2]) != '' for _, v in fpaths)
         r1.ob(ok, func.name + ':context-id')
         if not ok:
             rep.finding(r1, func.qualname, 'context_id', 'context-id', MAIN,
                         node.lineno, 'the returned context id is not "" '
                         'exactly when eos is TRUE')
-        # in pull, the FALSE branch returns the same context
         if kind == 'delete':
-            ok = norm(fa.get('context_id')) == 'EnumerationContext'
+            # the context key: the subscript used for the table lookup
+            keys = {norm(x.slice) for x in ast.walk(func.node)
+                    if isinstance(x, ast.Subscript) and
+                    _is_ctx_table(x.value) and isinstance(x.ctx, ast.Load)}
+            ok = len(keys) == 1 and all(norm(v.elts[2]) in keys
+                                        for _, v in fpaths)
             r1.ob(ok, func.name + ':same-context')
             if not ok:
                 rep.finding(r1, func.qualname, 'context_id', 'context-change',
                             MAIN, node.lineno, 'a pull that is not exhausted '
                             'does not return the same context')
-            # deleted key is the looked-up key
-            dels = writes_in(true_body)
-            ok = all(isinstance(d, ast.Delete) and
-                     norm(d.targets[0].slice) == 'EnumerationContext'
-                     for d in dels)
+            dels = [d for p_, _ in tpaths for d in ctx_writes(p_.effects)[1]]
+            ok = bool(dels) and all(norm(d.targets[0].slice) in keys
+                                    for d in dels)
             r1.ob(ok, func.name + ':delete-key')
-            if not ok:
+            if not ok and dels:
                 rep.finding(r1, func.qualname, norm(dels[0]), 'delete-key',
                             MAIN, dels[0].lineno, 'deletes another context')
-        # ---------------- R3 ------------------------------------------------
+        # ---- R3: eos predicate, slices ------------------------------------
         r3.sites += 1
         r3.functions.add(func.fq)
-        t = node.test
-        lenarg = maxvar = None
-        if isinstance(t, ast.Compare) and len(t.ops) == 1 and \
-                isinstance(t.left, ast.Call) and \
-                dotted(t.left.func) == 'len' and \
-                isinstance(t.comparators[0], ast.Name):
-            lenarg = norm(t.left.args[0])
-            maxvar = t.comparators[0].id
-            good_op = isinstance(t.ops[0], ast.LtE) and ea == 'TRUE' or \
-                isinstance(t.ops[0], ast.Gt) and ea == 'FALSE'
-        else:
-            good_op = False
-        r3.ob(good_op, func.name + ':eos-predicate',
-              {'function': func.name, 'test': norm(t),
-               'eos_TRUE_when_true': ea == 'TRUE'})
-        if not good_op:
-            rep.finding(r3, func.qualname, norm(t), 'eos-predicate', MAIN,
-                        node.lineno, 'end of sequence is not decided by '
+
+        def len_fact(p_):
+            """(list text, bound text, eos_true_when) from a fact
+            len(L) <= n / len(L) > n on the path"""
+            for e, pol in p_.facts:
+                if isinstance(e, ast.Compare) and len(e.ops) == 1 and \
+                        isinstance(e.left, ast.Call) and \
+                        dotted(e.left.func) == 'len' and \
+                        isinstance(e.comparators[0], ast.Name):
+                    op = e.ops[0]
+                    if isinstance(op, ast.LtE):
+                        le = pol
+                    elif isinstance(op, ast.Gt):
+                        le = not pol
+                    elif isinstance(op, ast.Lt):
+                        return (norm(e.left.args[0]),
+                                e.comparators[0].id, 'strict', e)
+                    elif isinstance(op, ast.GtE):
+                        return (norm(e.left.args[0]),
+                                e.comparators[0].id, 'strict', e)
+                    else:
+                        continue
+                    return (norm(e.left.args[0]), e.comparators[0].id, le, e)
+            return None
+        tf = [len_fact(p_) for p_, _ in tpaths]
+        ff = [len_fact(p_) for p_, _ in fpaths]
+        good = all(x is not None and x[2] is True for x in tf) and \
+            all(x is not None and x[2] is False for x in ff) and \
+            len({(x[0], x[1]) for x in tf + ff}) == 1
+        anyf = next((x for x in tf + ff if x is not None), None)
+        r3.ob(good, func.name + ':eos-predicate',
+              {'function': func.name,
+               'test': norm(anyf[3]) if anyf else None})
+        if not good:
+            rep.finding(r3, func.qualname, norm(anyf[3]) if anyf else 'eos',
+                        'eos-predicate', MAIN,
+                        anyf[3].lineno if anyf else node.lineno,
+                        'end of sequence is not decided by '
                         'len(objects) <= max_obj_cnt (eos while objects '
                         'remain, or an extra empty pull)')
             continue
-        # the TRUE branch returns the whole list
-        rv = [k for k, v in ta.items() if norm(v) == lenarg]
-        ok = bool(rv)
+        lenarg, maxvar = tf[0][0], tf[0][1]
+        # TRUE paths return the whole list
+        ok = all(norm(p_.resolve(v.elts[0])) == norm(p_.resolve(
+            ast.parse(lenarg, mode='eval').body)) for p_, v in tpaths)
         r3.ob(ok, func.name + ':true-returns-all')
         if not ok:
             rep.finding(r3, func.qualname, 'eos branch', 'not-all', MAIN,
-                        node.lineno, 'the eos=TRUE branch does not return '
+                        node.lineno, 'the eos=TRUE path does not return '
                         'all remaining objects')
-        # FALSE branch: x = objs[0:max]; del objs[0:max]
-        sl = [v for v in fa.values() if isinstance(v, ast.Subscript) and
-              norm(v.value) == lenarg and isinstance(v.slice, ast.Slice)]
-        dl = [n for s in false_body for n in ast.walk(s)
-              if isinstance(n, ast.Delete) and
-              isinstance(n.targets[0], ast.Subscript) and
-              norm(n.targets[0].value) == lenarg and
-              isinstance(n.targets[0].slice, ast.Slice)]
-
-        def bounds(slc):
-            lo = norm(slc.lower) if slc.lower is not None else '0'
-            hi = norm(slc.upper) if slc.upper is not None else None
-            return lo, hi, slc.step is None
-        ok = len(sl) == 1 and len(dl) == 1 and \
-            bounds(sl[0].slice) == bounds(dl[0].targets[0].slice) == \
-            ('0', maxvar, True)
-        # the slice must be taken before the delete
-        if ok:
-            order = [x for s in false_body for x in ast.walk(s)
-                     if x is sl[0] or x is dl[0]]
-            ok = order and order[0] is sl[0]
-        r3.ob(ok, func.name + ':slices',
-              {'returned': norm(sl[0]) if sl else None,
-               'deleted': norm(dl[0]) if dl else None})
-        if not ok:
-            rep.finding(r3, func.qualname,
-                        '%s / %s' % (norm(sl[0]) if sl else None,
-                                     norm(dl[0]) if dl else None),
-                        'slice-mismatch', MAIN, node.lineno,
-                        'returned slice and deleted slice of the object '
-                        'list do not have the same bounds [0:%s] (objects '
-                        'lost or delivered twice)' % maxvar)
+        # FALSE paths: the returned objects are L[0:max], taken before
+        # `del L[0:max]`
+        for p_, v in fpaths:
+            objs = p_.value.elts[0] if isinstance(p_.value, ast.Tuple) \
+                else None
+            rv = p_.resolve(v.elts[0])
+            # the slice as written on the path (one definition step)
+            sl = None
+            sl_pos = None
+            cand = objs
+            if isinstance(cand, ast.Name) and cand.id in p_.env:
+                sl, sl_pos = p_.env[cand.id]
+            elif isinstance(p_.value, ast.Name) and \
+                    p_.value.id in p_.env:
+                tup = p_.env[p_.value.id][0]
+                if isinstance(tup, ast.Tuple) and \
+                        isinstance(tup.elts[0], ast.Name) and \
+                        tup.elts[0].id in p_.env:
+                    sl, sl_pos = p_.env[tup.elts[0].id]
+            elif isinstance(cand, ast.Subscript):
+                sl, sl_pos = cand, len(p_.effects)
+            dl = [(i, st) for i, st in enumerate(p_.effects)
+                  if isinstance(st, ast.Delete) and
+                  isinstance(st.targets[0], ast.Subscript) and
+                  isinstance(st.targets[0].slice, ast.Slice) and
+                  not _is_ctx_table(st.targets[0].value)]
+            ok = isinstance(sl, ast.Subscript) and \
+                isinstance(sl.slice, ast.Slice) and \
+                norm(sl.value) == lenarg and len(dl) == 1 and \
+                norm(dl[0][1].targets[0].value) == lenarg and \
+                bounds(sl.slice) == bounds(dl[0][1].targets[0].slice) == \
+                ('0', maxvar, True) and sl_pos is not None and \
+                sl_pos < dl[0][0]
+            r3.ob(ok, func.name + ':slices',
+                  {'returned': norm(sl) if sl is not None else None,
+                   'deleted': norm(dl[0][1]) if dl else None})
+            if not ok:
+                rep.finding(r3, func.qualname,
+                            '%s / %s' % (norm(sl) if sl is not None else None,
+                                         norm(dl[0][1]) if dl else None),
+                            'slice-mismatch', MAIN, node.lineno,
+                            'returned slice and deleted slice of the object '
+                            'list do not have the same bounds [0:%s], or the '
+                            'slice is taken after the deletion (objects '
+                            'lost or delivered twice)' % maxvar)
+                break
     # CloseEnumeration: delete under membership test else raise
     ok = False
     for n in walk_no_nested(cls_.node):
